@@ -40,7 +40,7 @@ ASSUMPTIONS = [
     "'never hangs' is decided by size bounds (<= 400 characters, bounded nesting and numeric magnitudes), not by timing; a 60 s per-case watchdog only turns the run into a harness error",
     "the recursion limit during a case is pinned to 950 frames above the oracle's frame, i.e. what a caller near the top of a script with the default limit of 1000 gets",
     "F2 (CPython nesting limits) and F19 (unbounded constant folding) are excluded by measured depth / magnitude, never by exception signature",
-    "F37 (identifiers that are not NFKC-stable): sources that are not NFKC-normalised are excluded and counted; F38 (break/continue outside a loop, ext environment) likewise by the harness-side block stack",
+    "F37 (identifiers that are not NFKC-stable): sources that are not NFKC-normalised are excluded and counted",
     "sources are Unicode text without lone surrogates",
     "environments are built once per process and reused (from_string does not depend on environment state)",
 ]
